@@ -35,6 +35,7 @@ type c13Case struct {
 	Procs  int         `json:"procs"`
 	Chunk  int         `json:"disk_chunk"`
 	Delay  int         `json:"delay"`
+	Stmt   bool        `json:"stmt_yields,omitempty"`
 }
 
 type c13 struct{}
@@ -68,9 +69,11 @@ func recOfSize(total, idx int, nrefs int) RecSpec {
 
 func (c13) Gen(t *Tape, tier string, run int) interface{} {
 	c := &c13Case{RD: t.Pick("work", 0, 1, 2, 2, 4), Procs: t.Pick("work", 1, 2, 4), Chunk: t.Pick("work", 0, 0, 2), Delay: t.Pick("work", 0, 0, 1)}
+	c.Stmt = t.Chance("work", 1, 4)
 	switch k := t.Draw("work", 10); {
 	case k < 2:
 		c.Part = "bam-writer"
+		c.Stmt = false
 	case k < 6:
 		c.Part = "bam-split"
 	default:
@@ -203,6 +206,7 @@ func (c *c13Case) buildBAM(x *Exec) ([]byte, *Violation) {
 func (p c13) Exec(x *Exec, ci interface{}) *Verdict {
 	c := ci.(*c13Case)
 	x.Procs = c.Procs
+	x.StmtAll = c.Stmt
 	if c.Part == "bytes" {
 		return p.execBytes(x, c)
 	}
